@@ -123,6 +123,7 @@ ExtraConfigs ==
 QuickExtras ==
   {Cfg("IsotropicDamage", "Norton", "Mises", "none", "none", "none", "none", FALSE, "Tridimensional"),
    Cfg("StandardElasticity", "none", "Mises", "none", "none", "none", "none", FALSE, "PlaneStress"),
+   Cfg("StandardElasticity", "none", "Mises", "none", "none", "none", "none", FALSE, "AxisymmetricalGeneralisedPlaneStress"),
    Cfg("Hooke", "Plastic", "Mises", "Linear", "Armstrong-Frederick", "none", "none", FALSE, "PlaneStress"),
    Cfg("Hooke", "Plastic", "GursonTvergaardNeedleman1982", "Linear", "none", "Chu-Needleman 1980 (strain)", "standard implicit scheme", FALSE, "Tridimensional")}
 \* self-test probe: a hand-written Norton law (harness/mfront/lab/LabNortonImplicit.mfront) whose block dfp_ddeel is
@@ -172,12 +173,12 @@ InexactShare == 4
 
 \* ---- meaning of a reported block ------------------------------------------------------------------------------------------
 \* a block name is df<X>_dd<Y>; X, Y are integration variables: eel (elastic strain), p (equivalent strain of the flow),
-\* a (back strain of a kinematic hardening rule), f (porosity), d / e... (variables of the potential), etozz (axial strain).
+\* a / khr_a (back strain of a kinematic hardening rule), f (porosity), d / e... (variables of the potential), etozz (axial strain).
 \* The component responsible for an inexact block, by the equation (X) and the variable (Y):
 Responsible(cfg, X, Y) ==
   IF X = "f" \/ Y = "f" THEN IF cfg.nuc # "none" /\ X = "f" THEN "porosity (nucleation model " \o cfg.nuc \o ", criterion " \o cfg.crit \o ")"
                               ELSE "porosity (criterion " \o cfg.crit \o ")"
-  ELSE IF X = "a" \/ Y = "a" THEN "kinematic hardening rule " \o cfg.khr
+  ELSE IF X \in {"a", "khr_a"} \/ Y \in {"a", "khr_a"} THEN "kinematic hardening rule " \o cfg.khr
   ELSE IF X = "p" /\ Y = "p" THEN "flow " \o cfg.flow \o " / isotropic hardening rule " \o cfg.ihr
   ELSE IF X = "p" THEN "flow " \o cfg.flow \o " / criterion " \o cfg.crit
   ELSE IF X = "eel" /\ Y \in {"eel", "p"} THEN "criterion " \o cfg.crit
